@@ -1380,6 +1380,11 @@ let alias_case (_input : string) (obs0 : string) : verdict =
   let obs, _ = split_flags_all obs0 in
   { model = "A ok"; oracle = (if obs = "A ok" then [] else [ ("C15", "a stored or by-value delivered string changed after its source buffers were overwritten: " ^ obs) ]) }
 
+(* ---- C11: self-referential types (no model: the Go side compares original and copy) ---- *)
+let rec_case (_input : string) (obs0 : string) : verdict =
+  let obs, _ = split_flags_all obs0 in
+  { model = obs; oracle = (if obs = "R ok EQ" then [] else [ ("C11", "a value of a self-referential type was not reproduced: " ^ obs) ]) }
+
 let fmts = [ cbor_fmt; ubj_fmt; json_fmt ]
 let () = all_fmts := fmts
 let fmt_handlers =
@@ -1391,7 +1396,7 @@ let fmt_handlers =
 let canon_obs (o : string) : string =
   if contains o "HANG" then "HANG" else if contains o "PANIC" then "PANIC" else o
 
-let handlers : (string * (string -> string -> verdict)) list = ("lru", lru_case) :: ("fold", fold_case) :: ("unfold", unfold_case) :: ("rtgo", rtgo_case) :: ("alias", alias_case) :: ("histfold", histfold_case) :: ("histunf", histunf_case) :: fmt_handlers
+let handlers : (string * (string -> string -> verdict)) list = ("lru", lru_case) :: ("fold", fold_case) :: ("unfold", unfold_case) :: ("rtgo", rtgo_case) :: ("alias", alias_case) :: ("rec", rec_case) :: ("histfold", histfold_case) :: ("histunf", histunf_case) :: fmt_handlers
 
 
 let () =
